@@ -680,6 +680,16 @@ class Interp:
                             t.cancel(*fs.get('token', ()))
                     else:
                         ev(name, fidx, 'mark', fs.get('v'))
+        elif op == 'reenter':
+            sc = self.scopes.get(st['ref'])
+            if sc is None:
+                ev(name, idx, 'noscope')
+            else:
+                try:
+                    async with sc:
+                        ev(name, idx, 'reentered')
+                except RuntimeError:
+                    ev(name, idx, 'reenter_refused')
         elif op == 'try':
             # user code handling a failure of its block (the block is left by that exception)
             try:
